@@ -48,7 +48,22 @@ RULE = ("cases = every invocation shape (captures 0..4 in every &/&mut pattern a
         "without `mut` (must be `Fn`), copied (must be `Copy`; both copies used) and called once through `&f`; one with a mutable capture once through `&mut f`. "
         "For every instance whose expansion is read, the hidden fn's REAL name goes into the Lean name-resolution model (driver line `names …`) "
         "together with the value names and `let`s of the body: generated and explicit resolution must agree; plain instances must expand to exactly "
-        "one item (the hidden fn).")
+        "one item (the hidden fn). "
+        "LONG-RUNNING USE, BOTH BUILD PROFILES (wave 4; quick 18, thorough 25 instances; tools/c20_gen.py soak_instances, body template `exits-i64`, case tokens "
+        "`soak=<kind>/<exit form>/<n>` and `profile=<debug|release>`): a cheap all-i64 body that LEAVES EARLY in every syntactic way - `ret` explicit `return v;` / "
+        "`return;` (base case and after the first recursive call), `opt` / `res` the `?` operator on `Option<i64>` / `Result<i64,i64>` return types (base case and, "
+        "data-dependent, after a recursive call), `brk` `break 'label v` out of a labelled block also from inside a nested loop, `lop` `break v` / `continue` in a "
+        "`loop`, `unw` unwinding (the base case panics for a quarter of the inputs, the caller catches it with catch_unwind and goes on using the closure), `tail` "
+        "no early exit (control) - used for a long time on ONE thread (every instance runs on a fresh thread with a 1 GiB stack, so it fails or passes on its own): "
+        "`many` one closure called n = 2^21 + 2^18 times in a row (thorough 2^24; `unw` 2000 / 3400000; >= 1.5 early exits per call), accumulator checkpoints at every power "
+        "of two; `deep` recursion depth 100000 (thorough also 2^20 + 2^17), one early exit per level, then depth 2 and n/2 + 1 through the other handle; `multi` THREE "
+        "closures alive at once over captured variables of their own (nothing shared), three different exit forms, two of them with the same recursion name, called "
+        "round-robin n times in total; shapes (0..4 captures, 1..4 arguments, return type or none, both call syntaxes) cycle. All of them are built and run in cargo's "
+        "debug profile (debug assertions, overflow checks) AND in the release profile, the release workspace also containing every 8th (thorough: 4th) of the instances "
+        "above; one evaluation = one (instance, profile) pair compared with the explicit recursion. A failing long-running instance is shrunk to the outer call the "
+        "panic happened in / the first checkpoint that differs and re-confirmed in a crate of its own. The Lean history model (histG over the munchers' expansion vs "
+        "histE, driver line `hist`) is run on the first 64 outer calls of every `many` instance with an i64-valued exit form: its checkpoints must be the first "
+        "checkpoints the Rust program printed.")
 ASSUMPTIONS = [
     "rustc's macro matcher (fragment parsers, follow sets, the `$dol` trick, hygiene), type checker and borrow checker are not modelled: "
     "that a shape compiles is established by compiling it, for the generated shapes only",
@@ -62,6 +77,14 @@ ASSUMPTIONS = [
     "the Lean name-resolution model (resolveG/resolveCallG/resolveE: scopes = body lets, fn parameters, the block's hidden fn, enclosing scope; tokens of "
     "the local macro resolved at its definition) is a hand-written abstraction of rustc's resolver; it is tied to the code only through the hidden fn's "
     "name and the parameter list read from -Zunpretty=expanded",
+    "long-running use: the oracle is the hand-written explicit recursion with the same body, run the same number of times on a thread of its own; the Lean "
+    "history model (histG = histE for every history, history_eq_explicit; no state but the store, history_no_hidden_state) is tied to the programs only on the "
+    "first 64 outer calls of the `many` instances with i64-valued exit forms (ret/brk/lop/tail - one interaction tree, the exits are `ret` nodes); `?` on "
+    "Option/Result and unwinding are compared with the explicit recursion only. Budgets: state that needs more than 2^21 + 2^18 outer calls (thorough 2^24) or "
+    "more than 100000 (thorough 2^20 + 2^17) nested activations on one thread to show is not reached; exits by UNWINDING are accumulated 2000 times in the quick "
+    "tier only (a panic costs ~17 us), > 2^20 times in the thorough tier",
+    "release profile = cargo's default release profile (opt-level 3, no debug assertions, no overflow checks); in the quick tier it covers the long-running "
+    "instances and every 8th other instance, not all of them",
 ]
 TRUSTED_EXTRA = ["tools/c20_gen.py (program generator, reader of compiler diagnostics and of the expanded source)",
                  "cargo +nightly -Zunpretty=expanded pretty printer"]
@@ -81,7 +104,12 @@ MANIFEST = {
              "whatever the body declares, provided no argument/capture is called like the hidden fn (call_resolves). PARTIAL: rustc itself is not "
              "modelled; compilation and behaviour are checked on generated programs (thorough tier: all 496 shapes x 4 bodies + 384 larger shapes + 1300 "
              "name-resolution instances = 3668; quick tier: 160 shapes, 496 instances + 122 name-resolution instances = 618), and the model's wiring "
-             "and name resolution are compared with the real expansion of every instance (hidden fn's name, parameters, items declared)."),
+             "and name resolution are compared with the real expansion of every instance (hidden fn's name, parameters, items declared). "
+             "Long-running use: for any number of live closures and any history of outer calls the generated closures and the explicit recursions give the "
+             "same results and final store or stop at the same call with the same error (history_eq_explicit), a history's continuation depends on its past "
+             "only through the store - no hidden state (history_no_hidden_state), and the recursion budget runs out at the same depth (same_depth); tested on "
+             "18 (thorough 25) generated long-running programs with early-exit bodies (> 2^21 calls / depth 10^5 on one thread, three live closures), in the "
+             "debug and in the release profile, the release profile also on a sample of the other instances."),
     "note": ("Proof (partial). Proved: the macro wiring for unboundedly many captures/arguments and generated = explicit recursion in a small "
              "semantics of frames and references. Tested, not proved (named residue): rustc's macro matcher, type checker, borrow checker - "
              "every generated shape is compiled and run against a hand-written recursion (<= 4 captures, <= 4 arguments). Trusted: Lean kernel, "
@@ -176,18 +204,22 @@ def extra(ctx):
     # const, capture, argument, local), nested rec_lambda!, two live closures used interleaved
     hygiene = G.hygiene_instances(len(shapes) + len(beyond), tier)
     instances += hygiene
-    by_sid = {s.sid: s for s in shapes + beyond + [s for s, _ in hygiene]}
-    if len(by_sid) != len(shapes) + len(beyond) + len(hygiene):
+    # long-running use (wave 4): early-exit bodies called > 2^21 times on one thread, deep recursion, three live closures; run in the
+    # debug AND the release profile, together (release) with a sample of the instances above - see lr_flow below
+    soak = G.soak_instances(len(shapes) + len(beyond) + len(hygiene), tier)
+    sample = instances[::(4 if tier == "thorough" else 8)]
+    by_sid = {s.sid: s for s in shapes + beyond + [s for s, _ in hygiene] + [s for s, _ in soak]}
+    if len(by_sid) != len(shapes) + len(beyond) + len(hygiene) + len(soak):
         raise V.Machinery("shape numbers are not unique")
     nparts = 4 if tier == "thorough" else 2
     jobs = 4
     root = os.path.join(workdir, "c20ws")
 
     # ---- the Lean model's answer for every instance (the return type differs between templates) ----------------------
-    lines = [s.descriptor(t) for s, t in instances]
+    lines = [s.descriptor(t) for s, t in instances + soak]
     answers = _driver(lines)
     model = {}
-    for (s, t), line, ans in zip(instances, lines, answers):
+    for (s, t), line, ans in zip(instances + soak, lines, answers):
         pm = V.parse_model(ans)
         if pm is None or pm[2] == "any" or pm[1] != pm[2]:
             raise V.Machinery(f"drv_lambda: model and closed-form spec disagree (or shape out of domain) on `{line}`: {ans[:400]}")
@@ -208,6 +240,212 @@ def extra(ctx):
         problem, res = G.run_runner(r2)
         d = res.get((sid, t), {})
         return True, d.get("G"), d.get("E"), (problem or "")
+
+    # ---- long-running use and the second build profile (two background flows, in parallel with the main workspace below) --------
+    def lr_flow(release):
+        """Workspace of its own: [release: a sample of the regular instances +] the long-running instances, built in one profile,
+        run (the long instances in parallel processes), generated vs explicit compared. Returns a dict; never raises."""
+        tag = "release" if release else "debug"
+        out = {"findings": [], "compared": 0, "nontrivial": 0, "build_s": 0.0, "run_s": 0.0, "compile_failures": 0, "diffs": 0,
+               "machinery": None, "lean_compared": 0, "long_running": 0, "hist": {}}
+        try:
+            _lr_flow(release, tag, out)
+        except V.Machinery as e:
+            out["machinery"] = e
+        except Exception as e:                  # noqa: BLE001
+            out["machinery"] = V.Machinery(f"long-running/{tag} flow: {type(e).__name__}: {e}")
+        return out
+
+    def _lr_case(s, t, tag):
+        return f"{s.case(t, seed)} profile={tag}"
+
+    def _lr_confirm(s, t, release, n=None):
+        """one instance (a long-running one optionally with another length) in a crate of its own, same profile"""
+        s1 = s.with_n(n) if n is not None else s
+        r2 = os.path.join(workdir, f"c20lrone_{s.sid}_{t}_{n}_{int(release)}")
+        G.write_workspace(r2, repo, [(s1, t)], 1, seed)
+        okb, errs = G.cargo_build(r2, jobs, release)
+        if not okb:
+            return s1, False, None, None, (errs[0][2] if errs else "?")
+        problem, r = G.run_runner(r2, release=release)
+        d = r.get((s.sid, t), {})
+        return s1, True, d.get("G"), d.get("E"), (problem or "")
+
+    def _lr_flow(release, tag, out):
+        import re
+        insts = (list(sample) if release else []) + list(soak)
+        np_lr = (4 if tier == "thorough" else 2) if release else 1
+        root_lr = os.path.join(workdir, "c20lr_" + ("rel" if release else "dev"))
+        live_lr, okb, failures = list(insts), False, []
+        for rnd in range(3):
+            lm = G.write_workspace(root_lr, repo, live_lr, np_lr, seed)
+            tb = time.time()
+            okb, errs = G.cargo_build(root_lr, jobs, release)
+            out["build_s"] += time.time() - tb
+            if okb:
+                break
+            bad = {}
+            for part, line, msg, pkg, in_lambda in errs:
+                loc = G.locate(lm, part, line)
+                if loc is None:
+                    if "could not compile" in msg or "aborting due to" in msg:
+                        continue
+                    if in_lambda:
+                        return              # rlib_lambda itself does not compile: reported by the main flow
+                    raise V.Machinery(f"long-running/{tag} workspace does not build and the error is neither inside a generated instance nor in rlib/lambda: " + msg[:800])
+                sid, t, kind = loc
+                if kind == "e":
+                    raise V.Machinery(f"generator bug: the hand-written explicit version of `{_lr_case(by_sid[sid], t, tag)}` does not compile: {msg[:800]}")
+                bad.setdefault((sid, t), msg)
+            if not bad:
+                raise V.Machinery(f"long-running/{tag} workspace does not build, no error located: " + "\n".join(e[2] for e in errs)[:800])
+            failures += sorted(bad.items())
+            live_lr = [(s, t) for s, t in live_lr if (s.sid, t) not in bad]
+            if not live_lr:
+                break
+        out["compile_failures"] = len(failures)
+        if failures:
+            failures.sort(key=lambda x: (len(by_sid[x[0][0]].caps), by_sid[x[0][0]].nargs, x[0]))
+            for (sid, t), msg in failures[:3]:
+                s1, cok, _, _, err1 = _lr_confirm(by_sid[sid], t, release)
+                if cok:
+                    continue
+                out["findings"].append({"class": "violation", "what": f"generated rec_lambda! program does not compile ({tag} profile)", "profile": tag,
+                                        "case": _lr_case(s1, t, tag),
+                                        "impl": "does not compile: " + " ".join(err1.split())[:600] + f" ; {len(failures)} of {len(insts)} instances of this flow fail to compile"
+                                                + f" ; replay: python3 tools/c20_gen.py --replay '{_lr_case(s1, t, tag)}' --repo {repo}",
+                                        "model": "compiles, result = explicit recursion ; " + model[(sid, t)][1][:300]})
+                break
+            else:
+                out["findings"].append({"class": "broken", "kind": "correspondence",
+                                        "what": f"{len(failures)} instances fail to compile in the long-running/{tag} workspace but none of the first 3 fails in a crate of its own",
+                                        "detail": [_lr_case(by_sid[sid], t, tag) + " :: " + " ".join(msg.split())[:300] for (sid, t), msg in failures[:3]]})
+        if not okb or not live_lr:
+            if live_lr and not out["findings"]:
+                out["findings"].append({"class": "broken", "kind": "correspondence", "what": f"the long-running/{tag} workspace still does not build after 3 rounds; nothing was run"})
+            return
+        # run: the runner numbers the instances part by part; every long-running instance is a task of its own (own process)
+        order = [x for p_ in range(np_lr) for x in live_lr[p_::np_lr]]
+        tasks, k0 = [], None
+        for k, (s, t) in enumerate(order):
+            if s.soak is not None:
+                if k0 is not None:
+                    tasks.append((k0, k))
+                    k0 = None
+                tasks.append((k, k + 1))
+            elif k0 is None:
+                k0 = k
+        if k0 is not None:
+            tasks.append((k0, len(order)))
+        tr_ = time.time()
+        stop = []                       # set by the first long-running instance that does not finish in time: the later ones are not started
+
+        def run_task(lh):
+            one_long = lh[1] == lh[0] + 1 and order[lh[0]][0].soak is not None
+            if one_long and stop:
+                return None, {}
+            pr, r = G.run_runner(root_lr, release=release, lo=lh[0], hi=lh[1], timeout=(lr_timeout if one_long else 900))
+            if any(d.get("G", "").startswith("crash(rc=-999") for d in r.values()):
+                stop.append(lh)
+            return pr, r
+
+        with ThreadPoolExecutor(max_workers=4) as ex:
+            parts = list(ex.map(run_task, tasks))
+        out["run_s"] = time.time() - tr_
+        res_lr = {}
+        for problem, r in parts:
+            if problem:
+                raise V.Machinery(f"generated runner (long-running/{tag}): " + problem)
+            for key, d in r.items():
+                res_lr.setdefault(key, {}).update(d)
+        diffs_lr, timeouts = [], []
+        crashed_lr = sum(1 for d in res_lr.values() if d.get("G", "").startswith("crash("))
+        for s, t in order:
+            d = res_lr.get((s.sid, t))
+            if not d or "G" not in d or "E" not in d:
+                if crashed_lr or stop:
+                    continue            # not reached: the run was given up after too many crashes / a long-running instance that did not finish
+                raise V.Machinery(f"runner printed no result for `{_lr_case(s, t, tag)}`")
+            if d["E"].startswith(("panic", "crash(")):
+                raise V.Machinery(f"generator bug: the hand-written explicit version of `{_lr_case(s, t, tag)}` panicked/crashed ({d['E'][:160]})")
+            if s.soak is not None and d["G"].startswith("crash(rc=-999"):
+                timeouts.append((s, t))   # no verdict: running time is not part of the property
+                continue
+            out["compared"] += 1
+            out["nontrivial"] += 1 if s.caps else 0
+            if s.soak is not None:
+                out["long_running"] += 1
+                key = f"long-running:{s.soak[0]}/{s.soak[1]}"
+                out["hist"][key] = out["hist"].get(key, 0) + 1
+            if d["G"] != d["E"]:
+                diffs_lr.append((s, t, d["G"], d["E"]))
+        out["diffs"] = len(diffs_lr)
+        diffs_lr.sort(key=lambda x: (x[0].soak is not None, len(x[0].caps), x[0].nargs, x[0].sid))
+        for s, t, g, e in diffs_lr[:3]:
+            # shrink a long-running instance: the outer call the panic happened in / the first checkpoint that differs / half the depth
+            cands = []
+            if s.soak is not None:
+                n = s.soak[2]
+                m = re.match(r"panic at outer call #(\d+)", g)
+                if s.soak[0] != "deep":
+                    if m and int(m.group(1)) + 1 < n:
+                        cands.append(int(m.group(1)) + 1)
+                    for cg, ce in zip(g.split(";"), e.split(";")):
+                        if cg != ce:
+                            if re.fullmatch(r"\d+:-?\d+", ce) and int(ce.split(":")[0]) < n:
+                                cands.append(int(ce.split(":")[0]))
+                            break
+                else:
+                    cands += [x for x in (n // 16, n // 4) if x >= 4]
+            rep = None
+            for n2 in cands[:2] + [None]:
+                s1, cok, g2, e2, err1 = _lr_confirm(s, t, release, n2)
+                if not cok:
+                    raise V.Machinery(f"`{_lr_case(s1, t, tag)}` builds in the workspace but not in a crate of its own: {err1[:400]}")
+                if e2 is None or e2.startswith(("panic", "crash(")):
+                    continue
+                if g2 != e2:
+                    rep = (s1, g2, e2)
+                    break
+            if rep is None:
+                V.log(f"difference on `{_lr_case(s, t, tag)}` not confirmed in a crate of its own")
+                continue
+            s1, g2, e2 = rep
+            out["findings"].append({"class": "violation", "what": f"rec_lambda! closure differs from explicit recursion ({tag} profile"
+                                                                  + (", long-running use" if s.soak is not None else "") + ")", "profile": tag,
+                                    "case": _lr_case(s1, t, tag),
+                                    "impl": f"generated: {g2[:500]} ; {len(diffs_lr)} of {out['compared']} instances of the {tag} flow differ"
+                                            + f" ; replay: python3 tools/c20_gen.py --replay '{_lr_case(s1, t, tag)}' --repo {repo}",
+                                    "model": f"explicit: {e2[:500]}"})
+            break
+        out["timeouts"] = len(timeouts)
+        if timeouts:
+            out["findings"].append({"class": "broken", "kind": "correspondence",
+                                    "what": f"{len(timeouts)} long-running instance(s) of the {tag} flow did not finish within {lr_timeout} s with the generated closure (the explicit "
+                                            "recursion of the same instance, run just before, takes well under a second); they and the long-running instances after them were not compared",
+                                    "detail": [_lr_case(s, t, tag) for s, t in timeouts[:3]]})
+        # the Lean history model (histG over the munchers' expansion / histE) on the first SOAK_LEAN_N outer calls of every `many`
+        # instance whose exit form is i64-valued: the checkpoints it predicts must be the first checkpoints the Rust program printed
+        hl = [(s, t) for s, t in order if s.soak is not None and s.soak[0] == "many" and s.soak[1] in G.SOAK_I64_FORMS
+              and s.soak[2] >= G.SOAK_LEAN_N and "G" in res_lr.get((s.sid, t), {}) and res_lr[(s.sid, t)]["G"] == res_lr[(s.sid, t)].get("E")]
+        hlines = [f"hist {s.descriptor(t)} init={','.join(G.cap_init(0, i) for i in range(len(s.caps))) or '-'} n={G.SOAK_LEAN_N}" for s, t in hl]
+        bad_h = []
+        for (s, t), line, ans in zip(hl, hlines, _driver(hlines) if hlines else []):
+            pm = V.parse_model(ans)
+            if pm is None or pm[2] == "any" or pm[1] != pm[2]:
+                raise V.Machinery(f"drv_lambda: generated and explicit history of the Lean model disagree on `{line}`: {ans[:400]}")
+            out["lean_compared"] += 1
+            if not res_lr[(s.sid, t)]["G"].startswith(pm[0]):
+                bad_h.append({"case": line + f" profile={tag}", "rust": res_lr[(s.sid, t)]["G"][:300], "lean": pm[0][:300]})
+        if bad_h:
+            out["findings"].append({"class": "broken", "kind": "correspondence",
+                                    "what": f"the Lean history model (histG/histE on the exits-i64 body) and the Rust program differ on the first {G.SOAK_LEAN_N} "
+                                            f"outer calls of {len(bad_h)} long-running instances although generated and explicit Rust agree (model of the body template out of date)",
+                                    "detail": bad_h[:3]})
+
+    lr_timeout = 900 if tier == "thorough" else 30
+    lr_pool = ThreadPoolExecutor(max_workers=2)
+    lr_futures = [lr_pool.submit(lr_flow, False), lr_pool.submit(lr_flow, True)]
 
     # ---- generate, compile (compilation success is part of the property) ---------------------------------------------
     live = list(instances)
@@ -459,6 +697,22 @@ def extra(ctx):
         s, t = live[0] if len(live) < 50 else live[49]
         samples.append({"case": case_of(s.sid, t), "impl": "expansion wiring = model wiring", "model": model[(s.sid, t)][1][:300]})
 
+    # ---- results of the long-running / second-profile flows -----------------------------------------------------------------
+    lr_out = [f.result() for f in lr_futures]
+    lr_pool.shutdown()
+    for tag, o in zip(("debug", "release"), lr_out):
+        if o["machinery"] is not None:
+            raise o["machinery"]
+        findings += o["findings"]
+        compared += o["compared"]
+        nontrivial += o["nontrivial"]
+        for k_, v_ in o["hist"].items():
+            hist[k_ + "@" + tag] = v_
+        cov[f"long_running_{tag}"] = {"instances_compared": o["compared"], "long_running_instances": o["long_running"], "cargo_build_s": round(o["build_s"], 2),
+                                      "run_s": round(o["run_s"], 2), "compile_failures": o["compile_failures"], "behaviour_differences": o["diffs"], "not_finished_in_time": o.get("timeouts", 0),
+                                      "lean_history_runs_compared": o["lean_compared"]}
+    cov["long_running_instances"] = len(soak)
+    cov["release_profile_sample"] = len(sample)
     cov["extra_evaluations"] = compared
     cov["extra_nontrivial"] = nontrivial
     cov["extra_samples"] = samples
